@@ -266,6 +266,10 @@ pub mod model {
     pub fn set_base(addr: usize) {
         CTL.lock().unwrap().base = addr;
     }
+    static STRIDE: AtomicUsize = AtomicUsize::new(1);
+    pub fn set_stride(bytes: usize) {
+        STRIDE.store(bytes.max(1), Ordering::SeqCst);
+    }
 
     fn install() {
         unsafe {
@@ -368,7 +372,7 @@ pub mod model {
 
     pub fn probe_addr(addr: usize) {
         let base = CTL.lock().unwrap().base;
-        probe(Some(addr.wrapping_sub(base)));
+        probe(Some(addr.wrapping_sub(base) / STRIDE.load(Ordering::SeqCst)));
     }
 
     pub fn matched() {
